@@ -2167,3 +2167,480 @@ func ruleSeekForward(c *Ctx, r *Report) int {
 
 // nonNegativeByTypeOnly: int64 values are never non-negative by type; used to make sure the bound came from a test.
 func nonNegativeByTypeOnly(v ssa.Value) bool { return nonNegative(v) }
+
+// ruleHeaderMin (O-HDRMIN): a box header decoder returns a header (Size, Hdrlen) only on paths that
+// compared the size it returns with the header length it returns. DecodeBox[SR] and every container walk
+// compute Size-Hdrlen as an unsigned payload length; a header with Size < Hdrlen makes that wrap.
+// The rule is a must-pass-through over the function's CFG: with every block that branches on an ordering
+// comparison between (a value flowing into) the returned Size and (a value flowing into) the returned
+// Hdrlen removed, no return that builds a BoxHeader is reachable from the entry.
+func ruleHeaderMin(c *Ctx, r *Report) int {
+	n := 0
+	for _, name := range []string{"DecodeHeader", "DecodeHeaderSR"} {
+		f := c.ssaFunc(r, "O-HDRMIN", "mp4", name)
+		if f == nil {
+			continue
+		}
+		key := "mp4." + name + ":size-vs-hdrlen"
+		// success returns: result 0 is loaded from a local BoxHeader that has its Size field stored
+		type built struct {
+			ret      *ssa.Return
+			size, hl ssa.Value
+		}
+		var outs []built
+		for _, b := range f.Blocks {
+			if len(b.Instrs) == 0 {
+				continue
+			}
+			ret, ok := b.Instrs[len(b.Instrs)-1].(*ssa.Return)
+			if !ok || len(ret.Results) == 0 {
+				continue
+			}
+			ld, ok := ret.Results[0].(*ssa.UnOp)
+			if !ok || ld.Op != token.MUL {
+				continue
+			}
+			al, ok := ld.X.(*ssa.Alloc)
+			if !ok {
+				continue
+			}
+			var bt built
+			bt.ret = ret
+			for _, ref := range *al.Referrers() {
+				fa, ok := ref.(*ssa.FieldAddr)
+				if !ok {
+					continue
+				}
+				fname := fieldNameOf(fa)
+				for _, r2 := range *fa.Referrers() {
+					if st, ok := r2.(*ssa.Store); ok && st.Addr == fa {
+						switch fname {
+						case "Size":
+							bt.size = st.Val
+						case "Hdrlen":
+							bt.hl = st.Val
+						}
+					}
+				}
+			}
+			if bt.size != nil && bt.hl != nil {
+				outs = append(outs, bt)
+			}
+		}
+		if len(outs) == 0 {
+			r.Undecided("O-HDRMIN", key, c.Pos(f.Pos()), "no return that builds a BoxHeader with Size and Hdrlen found")
+			continue
+		}
+		n++
+		bad := ""
+		for _, o := range outs {
+			sizeSet := flowsInto(o.size)
+			hlSet := flowsInto(o.hl)
+			guards := map[*ssa.BasicBlock]bool{}
+			for _, b := range f.Blocks {
+				if len(b.Instrs) == 0 {
+					continue
+				}
+				ifi, ok := b.Instrs[len(b.Instrs)-1].(*ssa.If)
+				if !ok {
+					continue
+				}
+				bo, ok := ifi.Cond.(*ssa.BinOp)
+				if !ok {
+					continue
+				}
+				switch bo.Op {
+				case token.LSS, token.LEQ, token.GTR, token.GEQ:
+				default:
+					continue
+				}
+				x, y := stripConv(bo.X), stripConv(bo.Y)
+				if (inFlow(sizeSet, x) && inFlow(hlSet, y)) || (inFlow(sizeSet, y) && inFlow(hlSet, x)) {
+					guards[b] = true
+				}
+			}
+			seen := map[*ssa.BasicBlock]bool{}
+			stack := []*ssa.BasicBlock{f.Blocks[0]}
+			reach := false
+			for len(stack) > 0 {
+				x := stack[len(stack)-1]
+				stack = stack[:len(stack)-1]
+				if seen[x] || guards[x] {
+					continue
+				}
+				seen[x] = true
+				if x == o.ret.Block() {
+					reach = true
+					break
+				}
+				stack = append(stack, x.Succs...)
+			}
+			if reach {
+				bad = fmt.Sprintf("the return at %s is reachable on a path with no ordering comparison between the returned Size and the returned Hdrlen (%d comparing branches found): a header whose size is smaller than its own length is handed to callers that compute Size-Hdrlen unsigned", c.Pos(o.ret.Pos()), len(guards))
+			}
+		}
+		if bad != "" {
+			r.Bad("O-HDRMIN", key, c.Pos(f.Pos()), bad)
+		} else {
+			r.OK("O-HDRMIN", key, c.Pos(f.Pos()), "every path to a return that builds a BoxHeader passes a branch comparing the returned Size with the returned Hdrlen")
+		}
+	}
+	return n
+}
+
+// flowsInto: v, its widening conversions and, through phis, every value that may become v.
+func flowsInto(v ssa.Value) map[ssa.Value]bool {
+	set := map[ssa.Value]bool{}
+	var walk func(x ssa.Value)
+	walk = func(x ssa.Value) {
+		if set[x] {
+			return
+		}
+		set[x] = true
+		switch t := x.(type) {
+		case *ssa.Phi:
+			for _, e := range t.Edges {
+				walk(e)
+			}
+		case *ssa.Convert:
+			walk(t.X)
+		case *ssa.BinOp:
+			// headerLen += largeSizeLen: the sum is still the header length
+			if t.Op == token.ADD {
+				walk(t.X)
+			}
+		}
+	}
+	walk(v)
+	return set
+}
+
+func inFlow(set map[ssa.Value]bool, v ssa.Value) bool {
+	if set[v] {
+		return true
+	}
+	if cv, ok := v.(*ssa.Const); ok && cv.Value != nil {
+		for s := range set {
+			if sc, ok := s.(*ssa.Const); ok && sc.Value != nil && sc.Value.ExactString() == cv.Value.ExactString() {
+				return true
+			}
+		}
+	}
+	return false
+}
+
+func fieldNameOf(fa *ssa.FieldAddr) string {
+	if fv := fieldVar(fa.X.Type(), fa.Field); fv != nil {
+		return fv.Name()
+	}
+	return ""
+}
+
+// ruleSeekFirst (O-SEEKFIRST): the positional readers of lazily decoded media data (MdatBox.ReadData,
+// MdatBox.CopyData, File.CopySampleData) are given a caller-owned io.ReadSeeker and an absolute position.
+// Every read from that parameter is dominated by a Seek(…, io.SeekStart) on the same parameter in the same
+// function (or in a helper that seeks unconditionally): nothing in the box can know where the caller, or
+// another box sharing the ReadSeeker, left the read position.
+func ruleSeekFirst(c *Ctx, r *Report) int {
+	want := map[string]bool{"mp4.MdatBox.ReadData": true, "mp4.MdatBox.CopyData": true, "mp4.File.CopySampleData": true}
+	n := 0
+	isParam := func(v ssa.Value, p *ssa.Parameter) bool {
+		for {
+			switch x := v.(type) {
+			case *ssa.ChangeInterface:
+				v = x.X
+				continue
+			case *ssa.MakeInterface:
+				v = x.X
+				continue
+			}
+			break
+		}
+		return v == p
+	}
+	for _, f := range libFuncs(c, func(f *ssa.Function) bool { return want[SSAFuncName(f)] }) {
+		var rs *ssa.Parameter
+		for _, p := range f.Params {
+			if strings.HasSuffix(p.Type().String(), "io.ReadSeeker") {
+				rs = p
+			}
+		}
+		key := SSAFuncName(f) + ":seek-before-read"
+		if rs == nil {
+			r.Undecided("O-SEEKFIRST", key, c.Pos(f.Pos()), "no io.ReadSeeker parameter")
+			continue
+		}
+		var seeks []*ssa.BasicBlock
+		var seekIdx []int
+		type rd struct {
+			b   *ssa.BasicBlock
+			i   int
+			pos token.Pos
+		}
+		var reads []rd
+		for _, b := range f.Blocks {
+			for i, ins := range b.Instrs {
+				call, ok := ins.(*ssa.Call)
+				if !ok {
+					continue
+				}
+				cc := call.Common()
+				if cc.IsInvoke() {
+					if !isParam(cc.Value, rs) {
+						continue
+					}
+					switch cc.Method.Name() {
+					case "Seek":
+						if wh, ok := constSet(cc.Args[1], 0); ok && len(wh) == 1 && wh[0] == 0 {
+							seeks = append(seeks, b)
+							seekIdx = append(seekIdx, i)
+						}
+					case "Read":
+						reads = append(reads, rd{b, i, call.Pos()})
+					}
+					continue
+				}
+				uses := false
+				for _, a := range cc.Args {
+					if isParam(a, rs) {
+						uses = true
+					}
+				}
+				if !uses {
+					continue
+				}
+				callee := cc.StaticCallee()
+				if callee != nil && callee.Pkg != nil && strings.Contains(callee.Pkg.Pkg.Path(), "mp4ff") {
+					// a repository helper: counts as a seek when it seeks its parameter in its entry block
+					if helperSeeks(callee, cc.Args, rs) {
+						seeks = append(seeks, b)
+						seekIdx = append(seekIdx, i)
+						continue
+					}
+				}
+				reads = append(reads, rd{b, i, call.Pos()})
+			}
+		}
+		n++
+		if len(reads) == 0 {
+			r.Undecided("O-SEEKFIRST", key, c.Pos(f.Pos()), "no read from the ReadSeeker parameter found")
+			continue
+		}
+		bad := ""
+		for _, x := range reads {
+			dom := false
+			for k, sb := range seeks {
+				if sb == x.b && seekIdx[k] < x.i {
+					dom = true
+				}
+				if sb != x.b && sb.Dominates(x.b) {
+					dom = true
+				}
+			}
+			if !dom {
+				bad = fmt.Sprintf("the read at %s is not dominated by a Seek(…, io.SeekStart) on the caller's ReadSeeker: on some path the data is read from wherever the reader happens to stand", c.Pos(x.pos))
+			}
+		}
+		if bad != "" {
+			r.Bad("O-SEEKFIRST", key, c.Pos(f.Pos()), bad)
+		} else {
+			r.OK("O-SEEKFIRST", key, c.Pos(f.Pos()), fmt.Sprintf("%d reads from the caller's ReadSeeker, each dominated by an absolute Seek on it", len(reads)))
+		}
+	}
+	return n
+}
+
+func helperSeeks(callee *ssa.Function, args []ssa.Value, rs *ssa.Parameter) bool {
+	if len(callee.Blocks) == 0 {
+		return false
+	}
+	for i, a := range args {
+		v := a
+		for {
+			if ci, ok := v.(*ssa.ChangeInterface); ok {
+				v = ci.X
+				continue
+			}
+			break
+		}
+		if v != rs || i >= len(callee.Params) {
+			continue
+		}
+		p := callee.Params[i]
+		for _, ins := range callee.Blocks[0].Instrs {
+			if call, ok := ins.(*ssa.Call); ok && call.Call.IsInvoke() && call.Call.Value == p && call.Call.Method.Name() == "Seek" {
+				if wh, ok := constSet(call.Call.Args[1], 0); ok && len(wh) == 1 && wh[0] == 0 {
+					return true
+				}
+			}
+		}
+	}
+	return false
+}
+
+// ruleTrialCleanup (O-CLEAN): a method that reports success as a bool and grows receiver fields with append
+// (a trial parse: SencBox.parseAndFillSamples is called once per candidate IV size on the same box) stores
+// nil (or a fresh slice) to every such field on every path on which it may return false. Otherwise what the
+// failed attempt appended stays in the box and the next attempt appends after it: the decoded box carries
+// entries that were never in the input, and Size()/EncodeSW (which walk the fields) disagree with the bytes read.
+func ruleTrialCleanup(c *Ctx, r *Report) int {
+	n := 0
+	for _, f := range libFuncs(c, func(f *ssa.Function) bool { return strings.HasPrefix(SSAFuncName(f), "mp4.") }) {
+		sig := f.Signature
+		if sig.Recv() == nil || sig.Results().Len() != 1 || len(f.Params) == 0 {
+			continue
+		}
+		if bt, ok := sig.Results().At(0).Type().Underlying().(*types.Basic); !ok || bt.Kind() != types.Bool {
+			continue
+		}
+		recv := f.Params[0]
+		// fields grown with append
+		grown := map[string]bool{}
+		for _, b := range f.Blocks {
+			for _, ins := range b.Instrs {
+				st, ok := ins.(*ssa.Store)
+				if !ok {
+					continue
+				}
+				fa, ok := st.Addr.(*ssa.FieldAddr)
+				if !ok || fa.X != recv {
+					continue
+				}
+				if call, ok := st.Val.(*ssa.Call); ok {
+					if bi, ok := call.Call.Value.(*ssa.Builtin); ok && bi.Name() == "append" {
+						grown[fieldNameOf(fa)] = true
+					}
+				}
+			}
+		}
+		if len(grown) == 0 {
+			continue
+		}
+		n++
+		key := SSAFuncName(f) + ":cleanup-on-false"
+		// blocks that reset a field (directly or through a method of the receiver)
+		resets := map[string][]*ssa.BasicBlock{}
+		resetStores := func(fn *ssa.Function, rv ssa.Value, blk *ssa.BasicBlock) {
+			for _, b := range fn.Blocks {
+				for _, ins := range b.Instrs {
+					st, ok := ins.(*ssa.Store)
+					if !ok {
+						continue
+					}
+					fa, ok := st.Addr.(*ssa.FieldAddr)
+					if !ok || fa.X != rv {
+						continue
+					}
+					fresh := false
+					switch v := st.Val.(type) {
+					case *ssa.Const:
+						fresh = v.IsNil()
+					case *ssa.MakeSlice:
+						fresh = true
+					}
+					if fresh {
+						at := b
+						if blk != nil {
+							at = blk
+						}
+						resets[fieldNameOf(fa)] = append(resets[fieldNameOf(fa)], at)
+					}
+				}
+			}
+		}
+		resetStores(f, recv, nil)
+		for _, b := range f.Blocks {
+			for _, ins := range b.Instrs {
+				if call, ok := ins.(*ssa.Call); ok {
+					if cal := call.Call.StaticCallee(); cal != nil && cal != f && len(cal.Params) > 0 && len(call.Call.Args) > 0 && call.Call.Args[0] == recv && cal.Signature.Recv() != nil {
+						resetStores(cal, cal.Params[0], b)
+					}
+				}
+			}
+		}
+		cleaned := func(p *ssa.BasicBlock) (missing string) {
+			for fld := range grown {
+				ok := false
+				for _, rb := range resets[fld] {
+					if rb == p || rb.Dominates(p) {
+						ok = true
+					}
+				}
+				if !ok {
+					missing = fld
+				}
+			}
+			return
+		}
+		bad := ""
+		var judge func(v ssa.Value, at *ssa.BasicBlock, depth int)
+		judge = func(v ssa.Value, at *ssa.BasicBlock, depth int) {
+			if cv, ok := v.(*ssa.Const); ok && cv.Value != nil && cv.Value.ExactString() == "true" {
+				return
+			}
+			if knownTrue(v, at) {
+				return
+			}
+			if phi, ok := v.(*ssa.Phi); ok && depth < 4 {
+				for i, e := range phi.Edges {
+					judge(e, phi.Block().Preds[i], depth+1)
+				}
+				return
+			}
+			if m := cleaned(at); m != "" {
+				bad = fmt.Sprintf("may return false (value %s) on a path through block %d without resetting %s, which this function grows with append: a later attempt on the same box appends after the leftovers", v.Name(), at.Index, m)
+			}
+		}
+		for _, b := range f.Blocks {
+			if len(b.Instrs) == 0 {
+				continue
+			}
+			if ret, ok := b.Instrs[len(b.Instrs)-1].(*ssa.Return); ok && len(ret.Results) == 1 {
+				judge(ret.Results[0], b, 0)
+			}
+		}
+		flds := []string{}
+		for k := range grown {
+			flds = append(flds, k)
+		}
+		sort.Strings(flds)
+		if bad != "" {
+			r.Bad("O-CLEAN", key, c.Pos(f.Pos()), bad)
+		} else {
+			r.OK("O-CLEAN", key, c.Pos(f.Pos()), "every path that may return false resets the fields grown with append: "+strings.Join(flds, ", "))
+		}
+	}
+	return n
+}
+
+// knownTrue: block at is reached only through the true edge of a branch on v (or the false edge of a branch on !v).
+func knownTrue(v ssa.Value, at *ssa.BasicBlock) bool {
+	for d := at; d != nil; d = d.Idom() {
+		id := d.Idom()
+		if id == nil || len(id.Instrs) == 0 {
+			continue
+		}
+		ifi, ok := id.Instrs[len(id.Instrs)-1].(*ssa.If)
+		if !ok {
+			continue
+		}
+		// which successor of id leads to d exclusively
+		for si, s := range id.Succs {
+			if s != d || len(s.Preds) != 1 {
+				continue
+			}
+			cond := ifi.Cond
+			neg := false
+			if u, ok := cond.(*ssa.UnOp); ok && u.Op == token.NOT {
+				cond, neg = u.X, true
+			}
+			if cond != v {
+				continue
+			}
+			if (si == 0 && !neg) || (si == 1 && neg) {
+				return true
+			}
+		}
+	}
+	return false
+}
